@@ -735,7 +735,9 @@ func (s *BgpServer) filterpath(peer *peer, path, old *table.Path) *table.Path {
 		if o, oopts, stop := s.prePolicyFilterpath(peer, old, nil); !stop {
 			oopts.Validate = s.roaTable.Validate
 			if peer.policy.ApplyPolicy(peer.TableID(), table.POLICY_DIRECTION_EXPORT, o, oopts) != nil {
-				path = old.Clone(true)
+				// withdraw it in the form it was advertised in: for a neighbor in a VRF
+				// that is the plain (VRF-local) NLRI, not the VPN one of the RIB path
+				path = o.Clone(true)
 			}
 		}
 	}
